@@ -5,6 +5,8 @@
 
 mod checks_c05;
 mod checks_seq;
+mod checks_seq2;
+mod checks_queue;
 mod hook;
 mod hseq;
 mod model;
@@ -33,6 +35,10 @@ fn seq_check(id: &str) -> Option<checks_seq::SeqCheck> {
         "C02" => checks_seq::c02(),
         "C04" => checks_seq::c04(),
         "C06" => checks_seq::c06(),
+        "C07" => checks_seq2::c07(),
+        "C10" => checks_seq2::c10(),
+        "C11" => checks_seq2::c11(),
+        "C15" => checks_seq::c15_seq(),
         _ => return None,
     })
 }
@@ -40,7 +46,7 @@ fn seq_check(id: &str) -> Option<checks_seq::SeqCheck> {
 fn run_check(id: &str, tier: Tier, seed: u64) -> i32 {
     use checks_seq::{budget, run_seq, std_assumptions, RULE_HSEQ};
     match id {
-        "C01" | "C02" | "C04" | "C06" => {
+        "C01" | "C02" | "C04" | "C06" | "C07" | "C10" | "C11" | "C15" => {
             let chk = seq_check(id).unwrap();
             let mut rep = Report::new(chk.prop, tier, seed, "exploration");
             std_assumptions(&mut rep);
@@ -57,6 +63,22 @@ fn run_check(id: &str, tier: Tier, seed: u64) -> i32 {
                     budget(tier, 5_000, 400_000),
                     "non-trivial = history with >= 2 transactions judged; every transaction is judged against the priority-stamp relation of the statement; only a violated pair is classified through the ticket model (K1 delayed / K2 advanced / unexplained = VIOLATION)",
                 ),
+                "C15" => (
+                    budget(tier, 4_000, 300_000),
+                    "non-trivial = history with at least one execution and one removal by cancel / price move; shadow counters fed from the client-visible events (add calls, successful cancels and moves, transaction quantities, quantity x level price) are compared with stats() after every operation",
+                ),
+                "C07" => (
+                    budget(tier, 3_000, 200_000),
+                    "non-trivial = history in which an update found an order that had been partially filled or replenished before; every update is judged against the statement's contract on observation-before/after, and every history is re-run on a twin level that additionally receives read-only calls (listing, snapshot, package, JSON, text, serde, statistics) at random points: all results and observations must agree",
+                ),
+                "C10" => (
+                    budget(tier, 1_500, 100_000),
+                    "non-trivial = history whose level, at a checked point, holds orders after at least one match traded; at random points and at the end the level is rebuilt through all seven routes and compared field for field, and constructors are fed snapshots / level data / JSON / text whose aggregate fields lie (with a harness-computed checksum for the package route)",
+                ),
+                "C11" => (
+                    budget(tier, 3_000, 200_000),
+                    "one case = (history, restore route, continuation): non-trivial = >= 2 orders at snapshot time and a continuation that trades; maker sequences of original and restored twin are compared; a divergence is accepted only if both sequences are exactly what the ticket model predicts and a catalogued cause (K3a listing order != queue order, K3b surplus tickets) is present",
+                ),
                 _ => (
                     budget(tier, 4_000, 300_000),
                     "non-trivial = history with a match issued against a level holding an order with nothing displayed; bounded progress: every match returns within the step budget, leaves no displayed quantity when it returns unfilled, executes >= min(requested, displayed at start)",
@@ -67,6 +89,7 @@ fn run_check(id: &str, tier: Tier, seed: u64) -> i32 {
             rep.finish()
         }
         "C05" => checks_c05::run(tier, seed),
+        "C19" => checks_queue::run(tier, seed),
         _ => {
             eprintln!("unknown or unbuilt property id {}", id);
             3
@@ -90,7 +113,6 @@ fn replay(path: &str) -> i32 {
             let prop = r["property"].as_str().unwrap_or("");
             let chk = match prop {
                 "C05" => checks_seq::c05_level(),
-                "C15" => checks_seq::c15_seq(),
                 p => match seq_check(p) {
                     Some(c) => c,
                     None => {
